@@ -7,8 +7,9 @@ other password passes the EIP-2335 checksum).
 Correspondence with the Go code:
 
 * `Str`            a Go string as its list of code points (paths and names are ASCII in the correspondence stream).
-* `toDec`          `fmt.Sprintf("%d", i)` for `i ≥ 0`.
-* `matchAt` / `findMatch`  the leftmost-first match of `regexp.MustCompile("keystore-(?:insecure-)?([0-9]+).json")`
+* `toDec`          `fmt.Sprintf("%d", i)` for `i ≥ 0` (`toDecAux`: structural recursion on a fuel argument so that the
+                   kernel can evaluate it; `Proofs.toDec_eq` is the usual defining equation).
+* `skipIns`, `tailMatch`, `matchAt` / `findMatch`  the leftmost-first match of `regexp.MustCompile("keystore-(?:insecure-)?([0-9]+).json")`
                    (NOT anchored; the `.` is an unescaped "any character but \n"; `[0-9]+` is greedy and backtracks by
                    at most one digit: `keystore-12json` captures `1`), returning the capture group.
 * `extractFileIndex`  `extractFileIndex` on the string it is given — in `LoadFilesUnordered` that is the FULL path
@@ -38,8 +39,12 @@ Correspondence with the Go code:
                    non-cancellation error in arrival order.
 * `recDecrypt`, `loadFilesRecursively`  `LoadFilesRecursively`: all `*.json` below `dir` that unmarshal, all `*.txt` as
                    passwords; own password file first, then every password (Go map order: `others`); FileIndex from an
-                   atomic counter (1-based, completion order: oracle `order`). As the code is: with NO `.txt` file at
-                   all the loop body never runs, `err` stays nil and the zero key is returned.
+                   atomic counter (1-based, completion order: oracle `order`). Before repair cefbe7e (`Fixes.asIs`): with
+                   NO `.txt` file at all the loop body never ran, `err` stayed nil and the zero key was returned; now
+                   "no password files found".
+* `Fixes`          the two repairs of load.go as switches (`Fixes.current` = /repo now; `…With fx` variants of
+                   `sequencedKeys` / `loadFilesRecursively`): `seenSlice` — `SequencedKeys` keeps a `seen` slice instead of
+                   testing `resp[idx] != zero` (edaf179); `noPwError` (cefbe7e).
 * `keys`, `sequencedKeys`, `KeyFile.hasIndex`  `KeyFiles.Keys`, `KeyFiles.SequencedKeys`, `KeyFile.HasIndex`.
 * `keysharesToValidator`  `KeysharesToValidatorPubkey` (`pub` = `tbls.SecretToPublicKey`, `none` = its error; a
                    validator is its `PublicKeyHex()` as an id plus its public shares as ids). The function ranges
@@ -260,7 +265,8 @@ def storeSome (w : World) (dir : Str) (insecure : Bool) (secrets pws : List Nat)
   storeFrom dir insecure ran w 0 (secrets.zip pws)
 
 /-- `StoreKeys` (`insecure = false`) / `StoreKeysInsecure` with the fresh random passwords `pws`, every work function
-executed: the resulting world, and `none` on success / the error of the lowest failing index. -/
+executed: the resulting world, and `none` on success / an error (here: that of the lowest failing index; the real
+`Flatten` reports the first one to arrive — the correspondence driver checks the reported class against `storeSome`). -/
 def storeKeys (w : World) (dir : Str) (insecure : Bool) (secrets pws : List Nat) : World × Option StoreErr :=
   match checkDir w dir with
   | some .notExist => (w, some .dirNotExist)
@@ -270,6 +276,18 @@ def storeKeys (w : World) (dir : Str) (insecure : Bool) (secrets pws : List Nat)
     (r.1, (r.2.head?).map (·.2))
 
 /-! ### loading -/
+
+/-- the two repairs of load.go (commits cefbe7e, edaf179 in /repo); `Fixes.current` is the code as it is in /repo now,
+`Fixes.asIs` the code before them. -/
+structure Fixes where
+  /-- edaf179: `SequencedKeys` marks used indices in a separate `seen` slice instead of comparing the slot with the zero key -/
+  seenSlice : Bool
+  /-- cefbe7e: the work function of `LoadFilesRecursively` fails with "no password files found" when `passwordsMap` is empty -/
+  noPwError : Bool
+  deriving DecidableEq, Repr
+
+def Fixes.asIs : Fixes := ⟨false, false⟩
+def Fixes.current : Fixes := ⟨true, true⟩
 
 structure KeyFile where
   secret : Nat
@@ -288,6 +306,7 @@ inductive LoadErr where
   | decrypt
   | extractIndex
   | walk
+  | noPasswordFiles   -- "no password files found" (LoadFilesRecursively, repaired)
   deriving DecidableEq, Repr
 
 /-- the names directly inside `dir`: `n` with `dir/n` in the world, `n` non-empty and without separator. -/
@@ -340,18 +359,23 @@ inductive SeqErr where
   | duplicate
   deriving DecidableEq, Repr
 
-/-- the loop of `SequencedKeys` over the remaining files; `n = len(k)`, `resp` the slice being filled. -/
-def seqLoop (n : Nat) : List KeyFile → List Nat → Except SeqErr (List Nat)
-  | [], resp => .ok resp
-  | ks :: rest, resp =>
+/-- the loop of `SequencedKeys` over the remaining files; `n = len(k)`, `resp` the slice being filled, `seen` the slice
+of used indices (repaired code; the unrepaired code tests `resp[idx] != zero` instead). -/
+def seqLoop (fx : Fixes) (n : Nat) : List KeyFile → List Nat → List Bool → Except SeqErr (List Nat)
+  | [], resp, _ => .ok resp
+  | ks :: rest, resp, seen =>
     if !ks.hasIndex then .error .unknownIndex
     else if ks.fileIndex < 0 ∨ ks.fileIndex ≥ n then .error .outOfSequence
-    else if resp.getD ks.fileIndex.toNat 0 ≠ 0 then .error .duplicate
-    else seqLoop n rest (resp.set ks.fileIndex.toNat ks.secret)
+    else if (if fx.seenSlice then seen.getD ks.fileIndex.toNat false else decide (resp.getD ks.fileIndex.toNat 0 ≠ 0)) then
+      .error .duplicate
+    else seqLoop fx n rest (resp.set ks.fileIndex.toNat ks.secret) (seen.set ks.fileIndex.toNat true)
 
-/-- `KeyFiles.SequencedKeys`. -/
-def sequencedKeys (k : List KeyFile) : Except SeqErr (List Nat) :=
-  seqLoop k.length k (List.replicate k.length 0)
+/-- `KeyFiles.SequencedKeys` under a choice of repairs. -/
+def sequencedKeysWith (fx : Fixes) (k : List KeyFile) : Except SeqErr (List Nat) :=
+  seqLoop fx k.length k (List.replicate k.length 0) (List.replicate k.length false)
+
+/-- `KeyFiles.SequencedKeys` as it is in /repo. -/
+def sequencedKeys (k : List KeyFile) : Except SeqErr (List Nat) := sequencedKeysWith Fixes.current k
 
 /-- the files `filepath.Walk(dir)` visits: `dir` itself if it is a file, everything below it otherwise. -/
 def isUnder (dir p : Str) : Bool := p = dir || hasPrefix (dir ++ ['/']) p
@@ -378,31 +402,50 @@ def tryOthers (c : Content) : List (Option Nat) → Bool → Except Unit Nat
     | some s => .ok s
     | none => tryOthers c ps true
 
+inductive RecErr where
+  | decrypt        -- "keystore decryption"
+  | noPasswords    -- "no password files found"
+  deriving DecidableEq, Repr
+
+/-- the branch `if !ok || err != nil { … }` of the work function: with the repair an empty `passwordsMap` is an error
+before the loop; `failed` = `err != nil` so far. -/
+def recRest (fx : Fixes) (c : Content) (others : List (Option Nat)) (failed : Bool) : Except RecErr Nat :=
+  if fx.noPwError && others.isEmpty then .error .noPasswords
+  else match tryOthers c others failed with
+    | .ok s => .ok s
+    | .error _ => .error .decrypt
+
 /-- the decryption part of the work function of `LoadFilesRecursively`: `own` the content of the matching password
 file if there is one, `others` all passwords in Go map order. -/
-def recDecrypt (c : Content) (own : Option (Option Nat)) (others : List (Option Nat)) : Except Unit Nat :=
+def recDecrypt (fx : Fixes) (c : Content) (own : Option (Option Nat)) (others : List (Option Nat)) : Except RecErr Nat :=
   match own with
   | some p =>
     match decrypt c p with
     | some s => .ok s
-    | none => tryOthers c others true
-  | none => tryOthers c others false
+    | none => recRest fx c others true
+  | none => recRest fx c others false
 
 def lookupPw : List (Str × Option Nat) → Str → Option (Option Nat)
   | [], _ => none
   | (k, v) :: r, p => if k = p then some v else lookupPw r p
 
-def recOne (pws : List (Str × Option Nat)) (f : Str × Content) (index : Nat) : Except LoadErr KeyFile :=
-  match recDecrypt f.2 (lookupPw pws (pwFileOf f.1)) (pws.map (·.2)) with
-  | .error _ => .error .decrypt
+def recOne (fx : Fixes) (pws : List (Str × Option Nat)) (f : Str × Content) (index : Nat) : Except LoadErr KeyFile :=
+  match recDecrypt fx f.2 (lookupPw pws (pwFileOf f.1)) (pws.map (·.2)) with
+  | .error .decrypt => .error .decrypt
+  | .error .noPasswords => .error .noPasswordFiles
   | .ok s => .ok ⟨s, f.1, index⟩
 
-/-- `LoadFilesRecursively(dir)`; `order` = the valid files in arrival order, each with the value the atomic counter
-had for it (a permutation of `validFiles w dir` with the indices `1 … n` in some order). -/
-def loadFilesRecursively (w : World) (dir : Str) (order : List ((Str × Content) × Nat)) :
+/-- `LoadFilesRecursively(dir)` under a choice of repairs; `order` = the valid files in arrival order, each with the
+value the atomic counter had for it (a permutation of `validFiles w dir` with the indices `1 … n` in some order). -/
+def loadFilesRecursivelyWith (fx : Fixes) (w : World) (dir : Str) (order : List ((Str × Content) × Nat)) :
     Except LoadErr (List KeyFile) :=
   if dir ≠ [] ∧ lookup w dir = none then .error .walk
-  else collect (order.map (fun x => recOne (passwordFiles w dir) x.1 x.2))
+  else collect (order.map (fun x => recOne fx (passwordFiles w dir) x.1 x.2))
+
+/-- `LoadFilesRecursively(dir)` as it is in /repo. -/
+def loadFilesRecursively (w : World) (dir : Str) (order : List ((Str × Content) × Nat)) :
+    Except LoadErr (List KeyFile) :=
+  loadFilesRecursivelyWith Fixes.current w dir order
 
 /-! ### mapping shares to validators -/
 
